@@ -112,7 +112,7 @@ def run_suite(suite, tier, seed):
     for cname in gen.CLASSES:
         d = gen.DIM[cname]
         for k in range(reps):
-            fs = gen.mesh_case(rng, cname, nmax=nmax(tier), uniform=(k % 5 == 4), nmin=1)
+            fs = gen.mesh_case(rng, cname, nmax=nmax(tier), uniform=(k % 5 == 4), nmin=1, big=(k % 20 == 1))
             mesh = gen.build_mesh(pf, cname, fs)
             label = {"cls": cname, "faces": [list(map(float, f)) for f in fs]}
             mn = f"m{ncase}"
@@ -158,9 +158,9 @@ def run_suite(suite, tier, seed):
                             pf.solvePDE(ret, t2, externalsolver=solver2)
                             x2 = np.array(spy2["x"], dtype=float).reshape(old_full.shape)
                             if np.all(np.isfinite(x2)) and np.max(np.abs(x2)) < 1e6:
-                                defs += cv(f"old2_{ncase}", mn, old2) + cv(f"al2_{ncase}", mn, pad(mesh, a2_in)) + fv(f"D2_{ncase}", mn, D2a) + cv(f"x2_{ncase}", mn, x2)
+                                defs += cv(f"sec_old{ncase}", mn, old2) + cv(f"sec_al{ncase}", mn, pad(mesh, a2_in)) + fv(f"sec_D{ncase}", mn, D2a) + cv(f"sec_x{ncase}", mn, x2)
                                 ver.append(("solvePDE: second step on the same variable (same dt, new alpha)",
-                                            f"check_solution {mn} b{ncase} [TTrans QcOps al2_{ncase} {lib.q_of(dt)} old2_{ncase}; TDiff QcOps {lib.q_of(-1.0)} D2_{ncase}] x2_{ncase}"))
+                                            f"check_solution {mn} b{ncase} [TTrans QcOps sec_al{ncase} {lib.q_of(dt)} sec_old{ncase}; TDiff QcOps {lib.q_of(-1.0)} sec_D{ncase}] sec_x{ncase}"))
                         # the default solver gives the same values
                         phi2 = pf.CellVariable(mesh, inner, BC)
                         first_val = np.array(x)
